@@ -17,7 +17,8 @@ Malformed == {
     <<48, 128, 128, 128, 128, 1>>, <<54, 3, 0, 1, 97>>,
     <<48, 4, 0, 2, 195, 40>>, <<48, 5, 0, 1, 43, 0, 0>>,
     <<130, 2, 0, 1>>, <<130, 6, 0, 1, 0, 1, 97, 3>>,
-    <<16, 8, 0, 4, 77, 81, 84, 84, 9, 2>> }
+    <<16, 8, 0, 4, 77, 81, 84, 84, 9, 2>>,
+    <<0>>, <<54, 128>>, <<54, 128, 128, 128, 128, 1>>, <<97, 128, 128>> }       \* invalid first byte AND a cut / over-long length
 Foreign == {Encode(Other, p) : p \in {q \in SmallOf(Other) : q.t = "Connect"}}
 MCStreams == Valid \cup {s \o <<255>> : s \in Valid} \cup {SubSeq(s, 1, Len(s) - 1) : s \in Valid}
              \cup Malformed \cup Foreign \cup {Frame(48, WideBody), SubSeq(Frame(48, WideBody), 1, 100)}
